@@ -9,8 +9,10 @@ import H3.Gen.CtlArms
 Property theorems only.  Models: `H3.Settings` (`proto/frame.rs`: `Settings`, `SettingId`,
 `SettingsError`; the control-stream `WriteBuf`), `H3.Config` (`config.rs`, the conversion-error
 path of `connection.rs`, the settings cell of `shared_state.rs`).  Oracle: `H3.Spec.Settings`
-(RFC 9114 §7.2.4, §7.2.4.1, §7.2.4.2, §11.2.2).  The models describe the tree with the D-13
-repair (`Settings::insert` refuses identifiers and values ≥ 2^62). -/
+(RFC 9114 §7.2.4, §7.2.4.1, §7.2.4.2, §11.2.2; RFC 9297 §2.1.1, RFC 8441 §3).  The models describe the tree
+with the D-13 repair (`Settings::insert` refuses identifiers and values ≥ 2^62) and with the D-13b repair
+(`Settings::decode` refuses H3_DATAGRAM / ENABLE_CONNECT_PROTOCOL above 1; the list of such identifiers is the
+translator's `booleanIds`, proved equal to the specification's `boolean01`). -/
 namespace H3.Props.C13
 open H3.Varint (Bytes WF writeVar)
 open H3.Settings H3.Config H3.Gen.Consts H3.Gen.Settings
